@@ -5,7 +5,7 @@
    order of map entries: a toml::Table iterates in key order). *)
 From TV Require Import Base.Prelude Base.Utf8 Model.Datetime Model.DatetimeStd Model.SerNum
   Spec.DatetimeSpec Spec.SerdeData Model.Ser Model.De Model.SerdeRoutes
-  Proofs.SerdeRTBase Proofs.SerdeRTEq Proofs.SerdeRTLists Proofs.SerdeRT Proofs.SerdeRTBTree Proofs.SerdeRTTv
+  Proofs.DatetimeEq Proofs.SerdeRTBase Proofs.SerdeRTEq Proofs.SerdeRTLists Proofs.SerdeRT Proofs.SerdeRTBTree Proofs.SerdeRTTv
   Proofs.RoutesConv.
 From Coq Require Import Permutation Sorted.
 
@@ -37,7 +37,7 @@ Proof.
 Qed.
 
 Lemma ttv_inv_tab es y : conv (VTab es) y ->
-  (exists d, y = VDatetime d)
+  (exists k s rest d, es = (k, VStr s) :: rest /\ bytes_eqb k DT_FIELD = true /\ de_dt_str s = Ok d /\ y = VDatetime d)
   \/ (first_key_plain es = true /\
       exists es', Forall2 conv_rel es es' /\ NoDup (map fst es') /\ y = VTab (btree_of_pairs es')).
 Proof.
@@ -47,7 +47,7 @@ Proof.
     exists es'. split; [apply (conv_entries_inv es es' E)|]. split; [apply nodup_bytes_NoDup; exact N|reflexivity].
   - left. destruct es as [|[k x] es]; [discriminate F|]. simpl in F. apply negb_false_iff in F.
     rewrite (ttv_tab_tunnel k x es F) in H. destruct x; try discriminate H.
-    apply rmap_ok in H as (d & _ & ->). eauto.
+    apply rmap_ok in H as (d & Hd & ->). exists k, s, es, d. auto.
 Qed.
 
 Lemma ttv_inv_leaf x y : conv x y ->
@@ -402,12 +402,25 @@ Proof.
     destruct (utf8_decode1 s) as [[c [|? ?]]|]; try discriminate D1. tw_leaf D1 D2.
   - (* TStr *) intros _ x y v1 v2 C D1 D2. destruct x; simpl in D1; try discriminate D1.
     apply ttv_inv_leaf in C. simpl in C. subst y. tw_leaf D1 D2.
-  - (* TDatetime: toml::Value hands the date-time over as a string, Datetime's visitor refuses it *)
-    intros _ x y v1 v2 C D1 D2. destruct x; try (simpl in D1; discriminate D1).
-    + apply ttv_inv_leaf in C. simpl in C. destruct C as (d' & ->). simpl in D2. discriminate D2.
-    + apply ttv_inv_tab in C as [(d' & ->)|(Hf & _)]; [simpl in D2; discriminate D2|].
-      destruct es as [|[k0 y0] es]; [simpl in D1; discriminate D1|]. simpl in Hf. apply negb_true_iff in Hf.
-      cbn [de_value de_datetime] in D1. rewrite Hf in D1. simpl in D1. discriminate D1.
+  - (* TDatetime: both families go through toml_datetime's tunnel; what was parsed prints and parses back (C12) *)
+    intros _ x y v1 v2 C D1 D2.
+    assert (Hpp : forall s0 d0, de_dt_str s0 = Ok d0 -> de_dt_str (display_datetime d0) = Ok d0).
+    { intros s0 d0 H0. unfold de_dt_str in *. destruct (std_from_str s0) as [d1|] eqn:P; [|discriminate H0]. injection H0 as ->.
+      rewrite (print_parse_std d0 (closed s0 d0 P)). reflexivity. }
+    assert (Hfin : forall d', de_dt_str (display_datetime d') = Ok d' ->
+                   rbind (Ok d') (dt_kind_check k) = Ok v1 -> tv_de (TDatetime k) (VDatetime d') = Ok v2 -> sval_eq v1 v2).
+    { intros d' Hd' E1 E2. cbn [tv_de tv_de_datetime] in E2. rewrite Hd' in E2. simpl in E1, E2.
+      assert (v1 = v2) by congruence. subst v2. unfold dt_kind_check in E1. destruct (dt_kind_ok k d'); [|discriminate E1].
+      injection E1 as <-. constructor. }
+    destruct x; try (simpl in D1; discriminate D1).
+    + (* a date-time *)
+      unfold conv in C. simpl in C. apply rmap_ok in C as (d' & Hd & ->).
+      cbn [de_value de_datetime] in D1. rewrite Hd in D1. apply (Hfin d' (Hpp _ _ Hd) D1 D2).
+    + (* a table: the private key first *)
+      apply ttv_inv_tab in C as [(k0 & s0 & rest & d' & -> & Hk & Hd & ->)|(Hf & _)].
+      * cbn [de_value de_datetime] in D1. rewrite Hk, Hd in D1. apply (Hfin d' (Hpp _ _ Hd) D1 D2).
+      * destruct es as [|[k0 y0] es]; [simpl in D1; discriminate D1|]. simpl in Hf. apply negb_true_iff in Hf.
+        cbn [de_value de_datetime] in D1. rewrite Hf in D1. simpl in D1. discriminate D1.
   - intros _ x y v1 v2 C D1 D2. simpl in D1. discriminate D1.
   - intros _ x y v1 v2 C D1 D2. simpl in D1. discriminate D1.
   - (* TOpt *) intros Htw x y v1 v2 C D1 D2. rewrite dv_opt in D1. rewrite td_opt in D2.
@@ -422,7 +435,7 @@ Proof.
     constructor. apply (ag_pos (fun t' => t') ts (ag_Forall ts H Htw) xs ys r1 r2 F D1 D2).
   - (* TMap *) intros Htw x y v1 v2 C D1 D2. simpl in Htw. apply andb_true_iff in Htw as [Htw Hv]. apply andb_true_iff in Htw as [Hk _].
     destruct x; try (simpl in D1; discriminate D1).
-    apply ttv_inv_tab in C as [(d' & ->)|(_ & es' & F & N & ->)]; [simpl in D2; discriminate D2|].
+    apply ttv_inv_tab in C as [(k0' & s0' & rest' & d' & _ & _ & _ & ->)|(_ & es' & F & N & ->)]; [simpl in D2; discriminate D2|].
     rewrite dv_map in D1. rewrite td_map in D2.
     apply rmap_ok in D1 as (a & D1 & ->). apply rmap_ok in D2 as (b & D2 & ->).
     apply (ag_map t1 t2 Hk (IHt2 Hv) es es' a b F N D1 D2).
@@ -432,7 +445,7 @@ Proof.
       destruct (private_name n); [discriminate D1|].
       apply rmap_ok in D1 as (r1 & D1 & ->). apply rmap_ok in D2 as (b & D2 & ->). apply all_read_ok in D2 as (r2 & D2 & <-).
       constructor. apply (ag_pos (fun ft => snd ft) fs (ag_Forall_fields fs H Htw) xs ys r1 r2 F D1 D2).
-    + apply ttv_inv_tab in C as [(d' & ->)|(_ & es' & F & N & ->)]; [simpl in D2; discriminate D2|].
+    + apply ttv_inv_tab in C as [(k0' & s0' & rest' & d' & _ & _ & _ & ->)|(_ & es' & F & N & ->)]; [simpl in D2; discriminate D2|].
       rewrite dv_struct in D1. rewrite td_struct in D2. destruct (private_name n); [discriminate D1|].
       apply rmap_ok in D1 as (a & D1 & ->). apply rmap_ok in D2 as (b & D2 & ->). constructor.
       apply (ag_struct_map fs es es' (ag_Forall_fields fs H Htw) F N a b D1 D2).
@@ -446,7 +459,7 @@ Proof.
     + apply ttv_inv_leaf in C. simpl in C. subst y. rewrite dv_enum_str in D1. rewrite td_enum_str in D2.
       assert (v1 = v2) by congruence. subst v2. destruct (unit_only_inv _ _ _ _ D1) as (i & _ & ->). constructor. constructor.
     + destruct es as [|[k yv] [|? ?]]; try (simpl in D1; discriminate D1).
-      apply ttv_inv_tab in C as [(d' & ->)|(_ & es' & F & N & ->)]; [simpl in D2; discriminate D2|].
+      apply ttv_inv_tab in C as [(k0' & s0' & rest' & d' & _ & _ & _ & ->)|(_ & es' & F & N & ->)]; [simpl in D2; discriminate D2|].
       inversion F as [|? [k' y1] ? ? [Hk Hc] F']; subst. inversion F'; subst. simpl in Hk. subst k'. simpl in Hc.
       rewrite btree_single in D2. rewrite dv_enum_tab in D1. rewrite td_enum_tab in D2.
       rewrite find_name_first in D1, D2. destruct (first_named k vs) as [[i var]|] eqn:Fn; [|discriminate D1].
@@ -462,7 +475,7 @@ Proof.
       destruct (Nat.eqb (length xs) (length ts)); [|discriminate D1]. destruct (Nat.eqb (length ys) (length ts)); [|discriminate D2].
       apply rmap_ok in D1 as (r1 & D1 & ->). apply rmap_ok in D2 as (b & D2 & ->). apply all_read_ok in D2 as (r2 & D2 & <-).
       constructor. apply (ag_pos (fun t' => t') ts (ag_Forall ts H Htw) xs ys r1 r2 F D1 D2).
-    + apply ttv_inv_tab in C as [(d' & ->)|(_ & es' & F & N & ->)]; [simpl in D2; discriminate D2|].
+    + apply ttv_inv_tab in C as [(k0' & s0' & rest' & d' & _ & _ & _ & ->)|(_ & es' & F & N & ->)]; [simpl in D2; discriminate D2|].
       rewrite dp_tuple_tab in D1. rewrite tdp_tuple_tab in D2.
       destruct (index_keys 0 es) as [xs|] eqn:I1; [|discriminate D1].
       destruct (index_keys 0 (btree_of_pairs es')) as [ys|] eqn:I2; [|discriminate D2].
@@ -474,7 +487,7 @@ Proof.
     + apply ttv_inv_arr in C as (ys & -> & F). rewrite dp_struct_arr in D1. rewrite tdp_struct_arr in D2.
       apply rmap_ok in D1 as (r1 & D1 & ->). apply rmap_ok in D2 as (b & D2 & ->). apply all_read_ok in D2 as (r2 & D2 & <-).
       constructor. apply (ag_pos (fun ft => snd ft) fs (ag_Forall_fields fs H Htw) xs ys r1 r2 F D1 D2).
-    + apply ttv_inv_tab in C as [(d' & ->)|(_ & es' & F & N & ->)]; [simpl in D2; discriminate D2|].
+    + apply ttv_inv_tab in C as [(k0' & s0' & rest' & d' & _ & _ & _ & ->)|(_ & es' & F & N & ->)]; [simpl in D2; discriminate D2|].
       rewrite dp_struct in D1. rewrite tdp_struct in D2. destruct (struct_keys_ok (map fst fs) es); [|discriminate D1].
       apply rmap_ok in D1 as (a & D1 & ->). apply rmap_ok in D2 as (b & D2 & ->). constructor.
       apply (ag_struct_map fs es es' (ag_Forall_fields fs H Htw) F N a b D1 D2).
